@@ -368,20 +368,33 @@ def __lower_bound_sk_norm_randomized(
             a_mat = v0_mat.conj().T @ swap_entagled_kron_mat @ v0_mat
             b_mat = v0_mat.conj().T @ swap_entagled_kron_id @ v0_mat
 
-            largest_eigval, largest_eigvec = scipy.linalg.eigh(
-                a_mat, b=b_mat, subset_by_index=[a_mat.shape[0] - 1, a_mat.shape[0] - 1]
-            )
-
-            if (new_sk_lower_bound := np.real(largest_eigval[0])) >= sk_lower_bound + tol:
-                it_lower_bound_improved = True
-                sk_lower_bound = new_sk_lower_bound
-
-                opt_schmidt[: v0_mat.shape[1], (p + 1) % 2] = largest_eigvec.ravel()
-                opt_vec = left_swap_entagled_kron_id.conj().T @ np.kron(
-                    opt_schmidt[: k * dim_a, 0], opt_schmidt[: k * dim_b, 1]
+            try:
+                largest_eigval, largest_eigvec = scipy.linalg.eigh(
+                    a_mat, b=b_mat, subset_by_index=[a_mat.shape[0] - 1, a_mat.shape[0] - 1]
                 )
+            except np.linalg.LinAlgError:
+                # The Schmidt vectors of the fixed party have become linearly dependent: the pencil is singular and
+                # this restart cannot be continued. The value reached so far is attained by `opt_vec`.
+                return sk_lower_bound
 
-                opt_schmidt[:, (p + 1) % 2] /= np.linalg.norm(opt_schmidt[:, (p + 1) % 2], ord=2)
-                opt_vec /= np.linalg.norm(opt_vec, ord=2)
+            if np.real(largest_eigval[0]) >= sk_lower_bound + tol:
+                new_schmidt = opt_schmidt.copy()
+                new_schmidt[: v0_mat.shape[1], (p + 1) % 2] = largest_eigvec.ravel()
+                new_vec = left_swap_entagled_kron_id.conj().T @ np.kron(
+                    new_schmidt[: k * dim_a, 0], new_schmidt[: k * dim_b, 1]
+                )
+                if (new_norm := np.linalg.norm(new_vec, ord=2)) == 0:
+                    continue
+                new_vec /= new_norm
+
+                # The pencil can be ill-conditioned, in which case its largest eigenvalue is not reliable: only accept
+                # the step if the value attained by the new vector (of Schmidt rank at most k) is an improvement.
+                new_sk_lower_bound = np.real(new_vec.conj().T @ mat @ new_vec)
+                if new_sk_lower_bound >= sk_lower_bound + tol:
+                    it_lower_bound_improved = True
+                    sk_lower_bound = new_sk_lower_bound
+                    opt_schmidt = new_schmidt
+                    opt_schmidt[:, (p + 1) % 2] /= np.linalg.norm(opt_schmidt[:, (p + 1) % 2], ord=2)
+                    opt_vec = new_vec
 
     return sk_lower_bound
